@@ -105,23 +105,24 @@ class LocationPath(BaseASTNode):
     def __findIntermediateNodes(self, old, new, queryIndirect):
         """Find nodes that are on on any path between 'old' and 'new'"""
 
-        visited = set()
         intermediate = set()
         if old.issuperset(new): return intermediate
+        reaches = {}
 
-        def traverse(node, stack):
-            if node in visited: return
-
-            if node in new:
-                intermediate.update(stack)
-            else:
-                stack = stack + [node]
+        def traverse(node):
+            # Does some non-empty path from 'node' lead to a node in 'new'?
+            ret = reaches.get(node)
+            if ret is None:
+                ret = False
                 for i in node.values():
                     if queryIndirect or i.direct:
-                        traverse(i.node, stack)
-                visited.add(node)
+                        if i.node in new: ret = True
+                        if traverse(i.node): ret = True
+                reaches[node] = ret
+                if ret: intermediate.add(node)
+            return ret
 
-        for n in old: traverse(n, [])
+        for n in old: traverse(n)
 
         return intermediate
 
